@@ -47,6 +47,13 @@ func (a *archiveReconciler) markObjectSetsForArchival(ctx context.Context,
 	objectDeployment adapters.ObjectDeploymentAccessor,
 ) error {
 	if len(objectsToArchive) == 0 {
+		// Nothing to archive in this pass, but an earlier pass may have archived revisions
+		// and failed before pruning them, so the revision history limit still has to be enforced.
+		for _, previousObjectSet := range previousObjectSets {
+			if previousObjectSet.IsArchived() {
+				return a.garbageCollectRevisions(ctx, previousObjectSets, objectDeployment)
+			}
+		}
 		return nil
 	}
 
